@@ -39,13 +39,34 @@ Definition ok (c : casety) : nat :=
 OK_B = r'''
 From Bignums Require Import BigQ.
 From SVP Require Import Model.Bezier Model.Isect Model.IsectExec.
-(* case: control points of the curve, line start, line end, number of pairs returned *)
-Definition casety : Type := (list (Cplx bigQ) * Cplx bigQ * Cplx bigQ * Z)%type.
+Definition N := NumBQ.
+Definition eps7 : bigQ := bqc 1 10000000.
+(* case: control points of the curve, line start, line end, number of pairs returned,
+   hints = approximate crossing parameters (only used to build certificates) *)
+Definition casety : Type := (list (Cplx bigQ) * Cplx bigQ * Cplx bigQ * Z * list bigQ)%type.
+(* a bracket [r-eps, r+eps] inside (0,1) on which the crossing polynomial changes
+   sign and the foot point is strictly inside the segment at both ends *)
+Definition bracket_ok (g h : list bigQ) (n2 r : bigQ) : bool :=
+  let a := sub N r eps7 in let b := add N r eps7 in
+  ltb N (zero N) a && ltb N b (one N)
+  && ltb N (mul N (peval N g a) (peval N g b)) (zero N)
+  && ltb N (zero N) (peval N h a) && ltb N (peval N h a) n2
+  && ltb N (zero N) (peval N h b) && ltb N (peval N h b) n2.
+Fixpoint separated (l : list bigQ) : bool :=
+  match l with
+  | a :: ((b :: _) as r) => ltb N (add N a (add N eps7 eps7)) b && separated r
+  | _ => true
+  end.
 Definition ok (c : casety) : nat :=
-  let '(bez, l0, l1, nobs) := c in
-  match crossing_count NumBQ bez l0 l1 with
+  let '(bez, l0, l1, nobs, hints) := c in
+  match crossing_count N bez l0 l1 with
   | None => 99                                   (* not in general position: nothing claimed *)
-  | Some n => if Z.eqb n nobs then 0 else if Z.ltb nobs n then 1 else 2
+  | Some n =>
+      let g := cross_poly N bez l0 l1 in let h := dot_poly N bez l0 l1 in
+      let n2 := cnorm2 N (csub N l1 l0) in
+      if negb (Z.eqb n (Z.of_nat (length hints)) && separated hints && forallb (bracket_ok g h n2) hints)
+      then 98                                    (* count not confirmed by sign-change brackets: nothing claimed *)
+      else if Z.eqb n nobs then 0 else if Z.ltb nobs n then 1 else 2
   end.
 '''
 
@@ -267,6 +288,7 @@ def general_position(bez, l0, l1):
     for a, b in zip(real, real[1:]):
         if b - a < 1e-9:
             return False
+    hints = []
     for r in real:
         if min(abs(r), abs(r - 1)) < 1e-6:
             return False
@@ -274,7 +296,9 @@ def general_position(bez, l0, l1):
             s = bezier_point(h, r) / n2
             if min(abs(s), abs(s - 1)) < 1e-6:
                 return False
-    return True
+            if 0 < r < 1 and 0 < s < 1:
+                hints.append(float(r))
+    return hints
 
 
 def cubic_with_yroots(rng, roots, k):
@@ -329,7 +353,8 @@ def run_B(rep, K, tmp, items, secs):
             continue
         bez, l0, l1 = list(bezd[1:]), lined[1], lined[2]
         try:
-            if not general_position(bez, l0, l1):
+            hints = general_position(bez, l0, l1)
+            if hints is False:
                 stats['B:not-general-position(float pre-filter)'] += 1
                 continue
         except Exception:
@@ -343,13 +368,17 @@ def run_B(rep, K, tmp, items, secs):
             continue
         stats['B:' + d1[0] + d2[0]] += 1
         stats['B:returned=%d' % len(res)] += 1
-        cases.append('(%s, %s, %s, (%d)%%Z)' % (coq_list([cbq(z) for z in bez]), cbq(l0), cbq(l1), len(res)))
+        cases.append('(%s, %s, %s, (%d)%%Z, %s)' % (coq_list([cbq(z) for z in bez]), cbq(l0), cbq(l1), len(res),
+                                                    coq_list([bq(r) for r in hints])))
         meta.append((d1, d2, m, res, spy.calls[:]))
     fails, errors = common.run_cases(tmp, '', 'casety', OK_B, cases, shard=25, prefix='b')
     undecided = 0
     for idx, code in fails:
         if code == 99:
             undecided += 1
+            continue
+        if code == 98:
+            stats['B:count-not-confirmed-by-brackets'] += 1
             continue
         d1, d2, m, res, calls = meta[idx]
         s1, s2 = ic.mkseg(d1), ic.mkseg(d2)
@@ -418,12 +447,14 @@ def gen_polylines(rng):
     return poly(rng.randint(1, 4)), poly(rng.randint(1, 4)), scale
 
 
-def run_C(rep, K, tmp, rng, n, n_poly, secs):
+def run_C(rep, K, tmp, rng, n, n_poly, secs, only=None):
     from svgpathtools import Path
     stats = collections.Counter()
     acases, ameta = [], []
     todo = [([('L', 0j, 3 + 0j), ('L', 3 + 0j, 3 + 4j), ('L', 3 + 4j, 0j), ('L', 0j, 3 + 0j)], [('L', 1 - 1j, 1 + 1j)],
              [(0, 1 / 3, 0, 0.5), (3, 1 / 3, 0, 0.5)], 4.0)]
+    if only:
+        todo = list(only)
     for i in range(n):
         r = gen_path_C(rng)
         if r:
@@ -476,7 +507,7 @@ def run_C(rep, K, tmp, rng, n, n_poly, secs):
         for a in p1d:
             for b in p2d:
                 try:
-                    ok = ok and general_position([a[1], a[2]], b[1], b[2])
+                    ok = ok and (general_position([a[1], a[2]], b[1], b[2]) is not False)
                 except Exception:
                     ok = False
         if not ok:
@@ -573,10 +604,15 @@ def run(rep, tier, seed, replay=None):
                     run_A(rep, K, tmp, [(d1, d2, [tuple(c) for c in r['crossings']], {'family': r.get('family', 'replay')})], secs)
                 else:
                     run_B(rep, K, tmp, [(d1, d2, {'family': 'replay'})], secs)
+            elif r.get('kind') == 'path':
+                p1 = [ic.desc_unhex(h) for h in r['path1']]; p2 = [ic.desc_unhex(h) for h in r['path2']]
+                cr = [tuple(r['crossing'])] if 'crossing' in r else []
+                cr = [(int(c[0]), c[1], int(c[2]), c[3]) for c in cr]
+                run_C(rep, K, tmp, rng, 0, 0, secs, only=[(p1, p2, cr, 1.0)])
             K.flush()
             return
-        nA, eA, sA = run_A(rep, K, tmp, gen_A(rng, (6 if quick else 60) * boost, (10 if quick else 100) * boost,
-                                               (12 if quick else 150) * boost), secs)
+        itemsA = gen_A(rng, (6 if quick else 60) * boost, (10 if quick else 100) * boost, (12 if quick else 150) * boost)
+        nA, eA, sA = run_A(rep, K, tmp, itemsA, secs)
         nB, eB, sB = run_B(rep, K, tmp, gen_B(rng, (220 if quick else 3000) * boost, (60 if quick else 6000) * boost), secs)
         nC, eC, sC = run_C(rep, K, tmp, rng, (40 if quick else 400) * boost, (40 if quick else 400) * boost, secs)
         nD, eD = run_D(rep, K, tmp, rng, (150 if quick else 2000) * boost)
@@ -594,7 +630,8 @@ def run(rep, tier, seed, replay=None):
                            'crossings strictly inside segments, poly-line totals; D: polyroots01 on supplied root lists. '
                            'non-trivial = a crossing exists by construction (A) or the exact count was decided (B)')
         rep.cov['input_distribution'] = stats
-        rep.cov['samples'] = []
+        rep.cov['samples'] = [{'seg1': repr(ic.mkseg(d1)), 'seg2': repr(ic.mkseg(d2)), 'constructed_crossings': cr,
+                               'family': m['family']} for d1, d2, cr, m in itemsA[:3]]
         rep.cov['case_counts'] = {'A_constructed_crossings': nA, 'B_exact_counts': nB, 'C_path': nC, 'D_polyroots_lists': nD}
         if info['agree_failed'] and not rep.violations:
             rep.violation('agreement lemma(s) %s no longer check' % info['agree_failed'],
